@@ -731,3 +731,115 @@ def rule_CP1(ctx, rep, scope=None):
             rep.ok('CP1', fn, (stores + [astq.enclosing_stmt(c, pm) for c in helper_calls])[0] if (stores or helper_calls) else fn.qualname,
                    'in-place work happens on a copy: the parameter is re-bound on every path before the first in-place statement', fn.node)
     return n
+
+
+# ---------------------------------------------------------------------------------- IP1
+def rule_IP1(ctx, rep):
+    """no in-place operator on a share that still belongs to the caller: `x = await self.gather(x)` hands out the very share objects
+    (field elements / field arrays, which implement `>>=`, `<<=`, `+=`, .. in place) held by the caller's secure objects; an
+    augmented assignment to such a name, while the gathered object of a *parameter* can still reach it, changes the caller's value
+    (the runtime's own convention: `a = a >> f  # NB: no in-place rshift!`).  A locally created operand (random bit, product) is
+    the coroutine's own and may be updated in place."""
+    model = ctx.model
+    n = 0
+    for k, fn in sorted(model.funcs.items()):
+        if fn.module != 'runtime' or fn.kind not in ('pc', 'nopc'):
+            continue
+        pm = None
+        for s in iter_nodes(fn.node):
+            if not (isinstance(s, ast.AugAssign) and (isinstance(s.target, ast.Name) or (isinstance(s.target, ast.Subscript) and isinstance(s.target.value, ast.Name)))):
+                continue
+            pm = pm or parents(fn.node)
+            nm = s.target.id if isinstance(s.target, ast.Name) else s.target.value.id
+            if isinstance(s.target, ast.Subscript):
+                # x[i] op= ..: the element is the coroutine's own once it was stored (x[i] = <new value>) earlier on the way here,
+                # in this block or an enclosing one of the same loop iteration
+                fresh = False
+                x_ = s
+                while x_ is not None and x_ is not fn.node and not fresh:
+                    p_ = pm.get(id(x_))
+                    if p_ is None:
+                        break
+                    for b_ in astq._blocks(p_):
+                        if any(x_ is y for y in b_):
+                            k_ = next(i_ for i_, y in enumerate(b_) if y is x_)
+                            if any(isinstance(y, ast.Assign) and any(norm(t_) == norm(s.target) for t_ in y.targets) for y in b_[:k_]):
+                                fresh = True
+                    if isinstance(p_, (ast.For, ast.While, ast.AsyncFor)):
+                        break
+                    x_ = p_
+                if fresh:
+                    continue
+                # hand-confirmed: the index range of the in-place statement lies inside a slice that was just replaced by fresh elements
+                ex = IP1_FRESH_SLICE.get((fn.key, norm(s.target)))
+                if ex is not None:
+                    loops_ = [a_ for a_ in astq.ancestors(s, pm) if isinstance(a_, (ast.While, ast.For))]
+                    if any(isinstance(y, ast.Assign) and isinstance(y.targets[0], ast.Subscript) and isinstance(y.targets[0].slice, ast.Slice)
+                                                 and norm(y.targets[0].value) == nm and norm(y.targets[0].slice) == ex[0] and isinstance(y.value, ast.Await)
+                                                 and astq.position(y) < astq.position(s) for loop_ in loops_ for y in iter_nodes(loop_)):
+                        n += 1
+                        rep.ok('IP1', fn, s, ex[1])
+                        continue
+            hit = None
+            gathered = False
+            for d in astq.reaching_definitions(fn.node, nm, s, pm):
+                st = d[0]
+                if not (isinstance(st, ast.Assign) and isinstance(st.value, ast.Await) and isinstance(st.value.value, ast.Call) and attr_tail(st.value.value.func) == 'gather'):
+                    continue
+                gathered = True
+                # which argument of gather does the name receive?
+                call = st.value.value
+                tg = st.targets[0]
+                args = list(call.args)
+                src = None
+                if isinstance(tg, ast.Name) and len(args) == 1:
+                    src = args[0]
+                elif isinstance(tg, (ast.Tuple, ast.List)) and len(tg.elts) == len(args):
+                    for t_, a_ in zip(tg.elts, args):
+                        if isinstance(t_, ast.Name) and t_.id == nm:
+                            src = a_
+                if isinstance(src, ast.Name) and _caller_owned(fn, src.id, st, pm):
+                    hit = (st, src.id)
+            if not gathered:
+                continue
+            n += 1
+            if hit is not None:
+                rep.bad('IP1', fn, s, f'`{norm(s)}` updates in place the share gathered from the parameter `{hit[1]}` ({norm(hit[0])[:60]}): the caller\'s secure object '
+                        f'now holds the changed value (use `{nm} = {nm} {_OPTXT.get(type(s.op), "op")} ..`, which creates a new element)')
+            else:
+                rep.ok('IP1', fn, s, 'in-place update of a value the coroutine created itself')
+    return n
+
+
+IP1_FRESH_SLICE = {
+    # (function, in-place target): (slice replaced earlier in the same loop iteration, why the target lies inside it)
+    ('runtime::Runtime.prod', 'x[j]'): ('n % 2:', 'x[j] with j = (n%2 + i)//2 >= n%2 is one of the elements just replaced by the reshared products (x[n%2:] = await _reshare(h))'),
+}
+
+
+def _caller_owned(fn, name, use, pm, depth=0):
+    """does the name (still) denote the caller's object or a shallow copy of it (x[:], list(x), [x], x.copy()): its elements -- and
+    the shares gathered from them -- are the caller's"""
+    if depth > 4:
+        return False
+    for d in astq.reaching_definitions(fn.node, name, use, pm):
+        if d[2] == 'param':
+            return True
+        v = d[1]
+        if v is None:
+            continue
+        inner = None
+        if isinstance(v, ast.Subscript) and isinstance(v.slice, ast.Slice) and isinstance(v.value, ast.Name):
+            inner = v.value.id
+        elif isinstance(v, ast.Call) and isinstance(v.func, ast.Name) and v.func.id in ('list', 'tuple') and len(v.args) == 1 and isinstance(v.args[0], ast.Name):
+            inner = v.args[0].id
+        elif isinstance(v, ast.List) and len(v.elts) == 1 and isinstance(v.elts[0], ast.Name):
+            inner = v.elts[0].id
+        elif isinstance(v, ast.Call) and isinstance(v.func, ast.Attribute) and v.func.attr == 'copy' and isinstance(v.func.value, ast.Name):
+            inner = v.func.value.id
+        if inner is not None and isinstance(d[0], ast.stmt) and _caller_owned(fn, inner, d[0], pm, depth + 1):
+            return True
+    return False
+
+
+_OPTXT = {ast.RShift: '>>', ast.LShift: '<<', ast.Add: '+', ast.Sub: '-', ast.Mult: '*', ast.Mod: '%', ast.FloorDiv: '//'}
